@@ -32,6 +32,7 @@ type propConfig struct {
 	runTimeout time.Duration // watchdog for a single replayed run
 	blackbox   bool          // children keep the in-flight input in a shared file
 	stall      time.Duration // children end themselves when a run stalls this long
+	gomaxprocs int
 	rule       string
 	assumptions []string
 	realCode   []string
@@ -39,6 +40,21 @@ type propConfig struct {
 }
 
 var configs = map[string]*propConfig{
+	"C12": {
+		id: "C12", level: "exploration", checkptr: "1", plain: true, race: true,
+		quickRuns: 14000, thorRuns: 400000, quickRace: 7000, thorRace: 150000,
+		memKB: 6 << 20, quickWall: 80 * time.Second, thorWall: 30 * time.Minute, runTimeout: 60 * time.Second,
+		stall: 30 * time.Second, gomaxprocs: 8,
+		rule: "one run = 2..6 tasks (real goroutines, exactly one running, handed off through raw pipe syscalls that ThreadSanitizer cannot see) x 1..6 operations each, drawn from the derived read-only catalogue (every exported package function and every method of the shared value, of its language-value / item-list / id sub-values and of collection paths whose arguments can be synthesised by type, minus the justified mutator list; fmt verbs; decoding of private clean or damaged inputs), on a generated shared value v and a second value w (v itself, the smallest value, or an independent one), under a scheduling policy drawn per run: random walk (switch probability 1/4..1/256 per library statement), d=1..4 preemptions at drawn task-local steps, or PCT with d=1..3 priority change points. distinct = distinct hash of the switch sequence (from,to,site)*; non-trivial = at least one context switch fell inside an operation on the shared value.",
+		assumptions: []string{
+			"preemption granularity is one library statement; segments inside dependencies (fastjson, jsonld, encoding/gob, fmt) are atomic in the simulation, though ThreadSanitizer still sees their memory accesses",
+			"mutators are excluded by an explicit list, each entry justified by the function's documentation (props/c12/ops.go); views onto a struct wider than the value handed in are C08's subject and are not driven",
+			"type names are only placed on the Go struct the registry maps them to (type-consistent domain)",
+			"ThreadSanitizer keeps a bounded access history; the canary run of every race batch proves the oracle is live in that binary",
+		},
+		realCode: []string{"github.com/go-ap/activitypub (instrumented scratch copy)", "github.com/valyala/fastjson", "github.com/go-ap/jsonld", "git.sr.ht/~mariusor/go-xsd-duration", "encoding/gob", "fmt", "Go runtime + ThreadSanitizer (sim-race)"},
+		stubCode: []string{"scheduler and pipe hand-off", "caller tasks (clients)", "value generator", "wire faults on private decode inputs"},
+	},
 	"C04": {
 		id: "C04", level: "fault_enumeration", checkptr: "1", plain: true,
 		quickRuns: 250000, thorRuns: 6000000, enumQuick: true, enumThor: true,
@@ -170,8 +186,12 @@ func check(propID, tier string) int {
 	deadline := time.Now().Add(wall)
 	workers := 16
 	b := newBatch()
-	plainEnv := []string{"GOMAXPROCS=2"}
-	raceEnv := []string{"GOMAXPROCS=2", "GORACE=halt_on_error=1 exitcode=66 atexit_sleep_ms=0 history_size=2", "GOMEMLIMIT=3GiB"}
+	gmp := "GOMAXPROCS=2"
+	if cfg.gomaxprocs > 0 {
+		gmp = fmt.Sprintf("GOMAXPROCS=%d", cfg.gomaxprocs)
+	}
+	plainEnv := []string{gmp}
+	raceEnv := []string{gmp, "GORACE=halt_on_error=1 exitcode=66 atexit_sleep_ms=0 history_size=2", "GOMEMLIMIT=3GiB"}
 	tRun := time.Now()
 	if doEnum && cfg.plain {
 		// the enumeration may use at most 60% of the wall budget; the seeded search gets the rest
@@ -189,6 +209,14 @@ func check(propID, tier string) int {
 	}
 	plainRuns := b.runs
 	if cfg.race && raceRuns > 0 {
+		// canary: the race oracle must fire on a harness-owned planted race in this very binary
+		cres := runChild(childOpts{bin: sc.simRace, args: []string{"run", "--prop", propID, "--tier", tier, "--seed", "1", "--from", "0", "--to", "1"},
+			env: append(append([]string(nil), raceEnv...), "VERIF_CANARY=1"), timeout: 60 * time.Second})
+		if cres.exitCode == 66 && strings.Contains(cres.stderr, "canaryWrite") {
+			b.extra["race_canary_fired"] = true
+		} else {
+			fatal2("race canary did not fire (exit %d): the race oracle is not live in this binary\n%s", cres.exitCode, tailStr(cres.stderr, 2000))
+		}
 		// the race batch uses run indices disjoint from the plain batch
 		fanOutSeeds(b, sc.simRace, propID, tier, seed^0x5ace, raceRuns, workers, raceEnv, 0, 0, deadline, true, false, cfg.stall)
 	}
@@ -250,9 +278,14 @@ func check(propID, tier string) int {
 		minBudget = 120 * time.Second
 	}
 	if len(classes) > 4 {
-		minBudget = minBudget / time.Duration(len(classes)/4+1)
+		n := len(classes)
+		if n > 8 {
+			n = 8
+		}
+		minBudget = minBudget / time.Duration(n/4+1)
 	}
 	os.MkdirAll(filepath.Join(outDir, "replays"), 0o755)
+	minimised := 0
 	for _, class := range classes {
 		f := byClass[class]
 		f.known = matchKnown(known, propID, class)
@@ -278,7 +311,10 @@ func check(propID, tier string) int {
 		}
 		f.tapeLen[0] = len(plan.Tape) + len(plan.Input)
 		min := plan
-		if len(plan.Case) == 0 {
+		minimised++
+		if len(plan.Case) == 0 && minimised <= 8 {
+			// (beyond eight classes in one run the remaining ones are reported with their
+			// first failing plan as found; they replay all the same)
 			min, f.minEvals = minimise(ev, plan, class, minBudget)
 		}
 		f.tapeLen[1] = len(min.Tape) + len(min.Input)
